@@ -42,6 +42,7 @@ from .reporter       import CliReporter
 from .configurator   import Configurator, load_config
 from .configuration_error import ConfigurationError
 from .output import UIError
+from .subprocess_with_timeout import setup_signal_handling
 from .ui import UI, escape_braces
 
 
@@ -252,6 +253,10 @@ Argument:
     def run(self, argv=None):
         if argv is None:
             argv = sys.argv
+
+        # SIGTERM ends the session like Ctrl-C, also before the first benchmark is started
+        # and when benchmarks are only started from the threads of the parallel scheduler
+        setup_signal_handling()
 
         data_store = DataStore(self.ui)
         opt_parser = self.shell_options()
